@@ -185,6 +185,10 @@ async fn resume(child: RootedThread) -> IO<Result<(), String>> {
             Ok(_) => IO::Value(Ok(())),
             Err(Error::Dead) => IO::Value(Err("Attempted to resume a dead thread".into())),
             Err(err) => {
+                // The failed thread cannot continue: unwind the frames the failure left behind so
+                // that the thread is reported as dead from now on instead of being resumed in the
+                // middle of the failed call
+                let err = crate::thread::reset_stack_after_error(&child, 1, err);
                 let fmt = format!("{}", err);
                 IO::Exception(fmt)
             }
